@@ -72,6 +72,7 @@ def targeted(scratch):
     out["str_index"] = lambda: dx.from_pandas(pdf.set_index("s").dropna().sort_index() if False else pdf.assign(k=pdf.rid.map(lambda v: "k%03d" % v)).set_index("k"), npartitions=4).loc["k010":"k030"]
     out["float_index_setidx"] = lambda: d.set_index("b").partitions[[0, 1]]
     out["dt_index_resample_like"] = lambda: dx.from_pandas(pdf.set_index("t"), npartitions=4).loc["2000-01-01 05:00":"2000-01-01 20:00"]
+    out.update(schema_targets(pdf, d))
     if scratch:
         import os
 
@@ -90,6 +91,139 @@ def targeted(scratch):
                 pdf.iloc[i * 10:(i + 1) * 10].to_csv(os.path.join(cpath, f"p{i}.csv"), index=False)
         out["csv_proj"] = lambda: dx.read_csv(os.path.join(cpath, "p*.csv"))[["a", "b"]] * 2
         out["csv_parts"] = lambda: dx.read_csv(os.path.join(cpath, "p*.csv")).partitions[[1, 3]]
+    return out
+
+
+def sk_names():
+    """names of the keyword-surface targets (built once, in the driver, to enumerate the cases)"""
+    from vmon import ensure_repo_on_path
+
+    ensure_repo_on_path()
+    return sorted(n for n in targeted(None) if n.startswith("sk_"))
+
+
+def schema_targets(pdf, d):
+    """Keyword surface of the front end that adds, renames or removes labels / names / dtypes (C07): every entry is audited
+    declared-vs-computed at every stage like the others.  Joins are built so that the broadcast, hash and single-partition
+    lowerings are all reached (`method` of the run is 'tasks')."""
+    import dask_expr as dx
+
+    out = {}
+    small = dx.from_pandas(pdf.iloc[:12][["a", "c", "rid"]].rename(columns={"c": "c2", "rid": "rid2"}), npartitions=2)
+    one = dx.from_pandas(pdf.iloc[:9][["a", "b"]].rename(columns={"b": "b2"}), npartitions=1)
+    for how in ("inner", "left", "right", "outer"):
+        for bc in (None, True, False):
+            out[f"sk_merge_indicator_{how}_{bc}"] = lambda how=how, bc=bc: d.merge(small, on="a", how=how, indicator=True, broadcast=bc)
+        out[f"sk_merge_indicator_name_{how}"] = lambda how=how: d.merge(small, on="a", how=how, indicator="src", broadcast=True)
+        out[f"sk_merge_single_{how}"] = lambda how=how: d.merge(one, on="a", how=how, indicator=True)
+        out[f"sk_merge_suffix_{how}"] = lambda how=how: d[["a", "b", "c"]].merge(d[["a", "b", "rid"]].partitions[[0, 1]], on="a", how=how, suffixes=("_l", ""), broadcast=True)
+        out[f"sk_merge_lr_{how}"] = lambda how=how: d.merge(small.rename(columns={"a": "a2"}), left_on="a", right_on="a2", how=how)
+        out[f"sk_merge_ridx_{how}"] = lambda how=how: d.merge(small.set_index("a"), left_on="a", right_index=True, how=how)
+        out[f"sk_join_{how}"] = lambda how=how: d[["a", "b"]].join(d[["a", "c"]].partitions[[1, 2, 3]], lsuffix="_x", rsuffix="_y", how=how)
+    out["sk_sort_ignore_index"] = lambda: d.set_index("b").sort_values("c", ignore_index=True)
+    out["sk_sort_ignore_index_str"] = lambda: d.set_index("s").sort_values("rid", ignore_index=True)
+    out["sk_value_counts"] = lambda: d.a.value_counts()
+    out["sk_value_counts_norm"] = lambda: d.a.value_counts(normalize=True)
+    out["sk_value_counts_sort"] = lambda: d.s.value_counts(sort=True, dropna=False)
+    out["sk_value_counts_unnamed"] = lambda: (d.a + d.c).value_counts()
+    out["sk_dropdup_unnamed"] = lambda: (d.a + d.c).drop_duplicates()
+    out["sk_dropdup_series"] = lambda: d.a.drop_duplicates()
+    out["sk_dropdup_split2"] = lambda: d[["a", "s"]].drop_duplicates(split_out=2)
+    out["sk_unique_unnamed"] = lambda: (d.a + d.c).unique()
+    out["sk_nunique_split"] = lambda: d.a.nunique(split_out=2)
+    for so in (1, 2):
+        out[f"sk_gb_unnamed_key_{so}"] = lambda so=so: d.groupby(d.a + d.c).b.sum(split_out=so)
+        out[f"sk_gb_named_series_key_{so}"] = lambda so=so: d.groupby(d.a % 2).b.sum(split_out=so)
+        out[f"sk_gb_two_keys_{so}"] = lambda so=so: d.groupby(["a", "s"]).agg({"b": ["sum", "mean"], "c": "max"}, split_out=so)
+        out[f"sk_gb_size_{so}"] = lambda so=so: d.groupby("a").size(split_out=so)
+        out[f"sk_gb_named_agg_{so}"] = lambda so=so: d.groupby("a").agg(lo=("b", "min"), hi=("c", "max"), split_out=so)
+        out[f"sk_gb_value_counts_{so}"] = lambda so=so: d.groupby("a").s.value_counts(split_out=so)
+        out[f"sk_gb_index_key_{so}"] = lambda so=so: d.groupby("ix").b.sum(split_out=so)
+        out[f"sk_gb_nunique_{so}"] = lambda so=so: d.groupby("a").c.nunique(split_out=so)
+        out[f"sk_gb_median_{so}"] = lambda so=so: d.groupby("a")[["b", "c"]].median(split_out=so)
+        out[f"sk_gb_first_{so}"] = lambda so=so: d.groupby("s", dropna=False)[["b", "t"]].first(split_out=so)
+    out["sk_gb_cov"] = lambda: d.groupby("a")[["b", "c"]].cov()
+    out["sk_gb_cov_proj"] = lambda: d.groupby("a")[["b", "c"]].cov()["b"]
+    out["sk_gb_corr"] = lambda: d.groupby("a")[["b", "c"]].corr()
+    out["sk_gb_apply"] = lambda: d.groupby("a")[["b", "c"]].apply(lambda g: g.sum())
+    out["sk_gb_transform"] = lambda: d.groupby("a")[["b", "c"]].transform("sum")
+    out["sk_gb_shift"] = lambda: d.groupby("a").b.shift(1)
+    out["sk_gb_cumcount"] = lambda: d.groupby("a").cumcount()
+    out["sk_gb_rolling"] = lambda: d.groupby("a").b.rolling(2).sum()
+    out["sk_gb_idxmax"] = lambda: d.groupby("a").b.idxmax()
+    out["sk_gb_getitem_list1"] = lambda: d.groupby("a")[["b"]].sum()
+    out["sk_rolling_cov_proj"] = lambda: d[["b", "c"]].rolling(3).cov()["b"]
+    out["sk_rolling_agg"] = lambda: d[["b", "c"]].rolling(3).agg(["sum", "max"])
+    out["sk_reset_index_series"] = lambda: d.b.reset_index()
+    out["sk_reset_index_unnamed_series"] = lambda: (d.a + d.c).reset_index()
+    out["sk_reset_index_multi"] = lambda: d.groupby(["a", "s"]).b.sum().reset_index()
+    out["sk_reset_index_multi_key"] = lambda: d.groupby(["a", "s"]).b.sum().reset_index()["a"]
+    out["sk_to_frame_name"] = lambda: d.b.to_frame(name="zz")
+    out["sk_to_frame_unnamed"] = lambda: (d.a + d.c).to_frame()
+    out["sk_index_to_frame"] = lambda: d.index.to_frame()
+    out["sk_index_to_frame_name"] = lambda: d.index.to_frame(name="q", index=False)
+    out["sk_index_to_series"] = lambda: d.index.to_series(name="zq")
+    out["sk_rename_series_scalar"] = lambda: d.b.rename("bb")
+    out["sk_rename_axis"] = lambda: d.rename_axis("newix")
+    out["sk_rename_axis_series"] = lambda: d.b.rename_axis("newix")
+    out["sk_describe"] = lambda: d[["b", "c"]].describe()
+    out["sk_describe_series"] = lambda: d.b.describe()
+    out["sk_quantile_list"] = lambda: d[["b", "c"]].quantile([0.25, 0.75])
+    out["sk_quantile_scalar"] = lambda: d.b.quantile(0.5)
+    out["sk_mode_frame"] = lambda: d[["a", "s"]].mode()
+    out["sk_nlargest"] = lambda: d.nlargest(3, ["b"])
+    out["sk_idxmax_frame"] = lambda: d[["b", "c"]].idxmax()
+    out["sk_cov"] = lambda: d[["a", "b", "c"]].cov()
+    out["sk_corr_split"] = lambda: d[["a", "b", "c"]].corr(split_every=2)
+    out["sk_memory_usage"] = lambda: d.memory_usage(deep=True)
+    out["sk_isin_frame"] = lambda: d[["a", "c"]].isin([1, 2])
+    out["sk_explode"] = lambda: d[["a", "s"]].explode("a")
+    out["sk_melt_like_stack"] = lambda: d[["a", "c"]].rename(columns={"a": "c", "c": "a"})
+    out["sk_pivot_table"] = lambda: d.assign(cat=d.a.astype("category").cat.as_known()).pivot_table(index="c", columns="cat", values="b", aggfunc="sum")
+    out["sk_get_dummies_like"] = lambda: d.a.astype("category").cat.as_known().cat.codes
+    out["sk_cat_categories"] = lambda: d.s.astype("category").cat.as_known()
+    out["sk_str_split"] = lambda: d.s.str.split("z", n=1, expand=True)
+    out["sk_str_cat"] = lambda: d.s.str.cat(d.s, sep="-")
+    out["sk_dt_accessor"] = lambda: d.t.dt.isocalendar()
+    out["sk_to_datetime"] = lambda: dx.to_datetime(d.t.astype("str"))
+    out["sk_to_numeric"] = lambda: dx.to_numeric(d.a.astype("str"))
+    out["sk_astype_dict"] = lambda: d.astype({"a": "float32", "c": "str"})
+    out["sk_select_dtypes"] = lambda: d.select_dtypes(include="number")
+    out["sk_eval"] = lambda: d.eval("z = a + c")
+    out["sk_assign_series_unnamed"] = lambda: d.assign(z=d.a + d.c, w=1)
+    out["sk_combine_first"] = lambda: d[["a", "b"]].partitions[[0, 1]].combine_first(d[["b", "c"]])
+    out["sk_fillna_frame"] = lambda: d[["a", "b"]].fillna(d[["a", "b"]].partitions[[0, 1, 2]])
+    out["sk_where_other_series"] = lambda: d.b.where(d.a > 2, d.c)
+    out["sk_clip_series_bounds"] = lambda: d.b.clip(lower=d.a)
+    out["sk_map_series_arg"] = lambda: d.a.map(pd.Series({0: "p", 1: "q"}))
+    out["sk_apply_infer"] = lambda: d.apply(lambda r: r["a"] + r["c"], axis=1)
+    out["sk_map_partitions_infer"] = lambda: d.map_partitions(lambda x: x.assign(q=x.a.astype("float64"))[["q", "s", "a"]])
+    out["sk_map_overlap"] = lambda: d[["b", "c"]].map_overlap(lambda x: x.rolling(2).sum(), before=1, after=0)
+    out["sk_resample"] = lambda: dx.from_pandas(pdf.set_index("t")[["a", "b"]], npartitions=4).resample("5h").sum()
+    out["sk_resample_agg"] = lambda: dx.from_pandas(pdf.set_index("t")[["a", "b"]], npartitions=4).resample("5h").agg({"a": "sum", "b": "mean"})
+    out["sk_resample_count_series"] = lambda: dx.from_pandas(pdf.set_index("t")[["a", "b"]], npartitions=4).b.resample("7h").count()
+    out["sk_merge_asof"] = lambda: dx.merge_asof(d[["c", "a"]].sort_values("c"), small.sort_values("c2"), left_on="c", right_on="c2")
+    out["sk_merge_asof_on"] = lambda: dx.merge_asof(d[["rid", "a"]], d[["rid", "b"]].partitions[[0, 1, 2]], on="rid")
+    out["sk_concat_series_frame"] = lambda: dx.concat([d.b, d[["a"]]], axis=1)
+    out["sk_concat_series_names"] = lambda: dx.concat([d.b, d.c], axis=0)
+    out["sk_concat_inner"] = lambda: dx.concat([d[["a", "b"]], d[["b", "c"]]], join="inner")
+    out["sk_concat_mixed_dtypes"] = lambda: dx.concat([d[["a", "b"]], d[["a", "b"]].astype({"a": "float64", "b": "str"})])
+    out["sk_sum_axis1"] = lambda: d[["a", "b", "c"]].sum(axis=1)
+    out["sk_count_split"] = lambda: d.count(split_every=2)
+    out["sk_std_ddof"] = lambda: d[["b", "c"]].std(ddof=0)
+    out["sk_var_numeric_only"] = lambda: d.var(numeric_only=True)
+    out["sk_any_axis"] = lambda: (d[["a", "c"]] > 3).any()
+    out["sk_squeeze"] = lambda: d[["b"]].squeeze()
+    out["sk_head_series"] = lambda: d.b.head(3, compute=False)
+    out["sk_sample"] = lambda: d.sample(frac=0.5, random_state=1)
+    out["sk_shuffle_index"] = lambda: d.shuffle(on_index=True, npartitions=3)
+    out["sk_set_index_keep"] = lambda: d.set_index("c", drop=False)
+    out["sk_set_index_series"] = lambda: d.set_index(d.c + 1)
+    out["sk_set_index_series_filter"] = lambda: d.set_index(d.c + 1)[lambda x: x.a > 2]
+    out["sk_index_arith"] = lambda: d.index + 1
+    out["sk_index_map"] = lambda: d.index.map(lambda x: x * 2)
+    out["sk_len_filtered_series"] = lambda: d.b[d.a > 2]
+    out["sk_nested_fused_broadcast"] = lambda: d[["a", "c"]] + ((d.partitions[[0]].a.sum() + 1) * 2)
     return out
 
 
